@@ -16,6 +16,7 @@ import (
 	"fmt"
 	"math/rand"
 	"os"
+	"runtime/debug"
 	"sort"
 	"sync"
 	"sync/atomic"
@@ -279,6 +280,16 @@ func slScenario(t *tr.W, sc *slScript, free bool) string {
 	var running int32
 	body := func(name string, ops [][]interface{}) func(p *gate.Proc) {
 		return func(p *gate.Proc) {
+			// a panic of the skiplist on a legal call sequence is its behaviour: one Panic event, judged by the trace specs
+			defer func() {
+				if x := recover(); x != nil {
+					where := ""
+					if m := nitroFrame.FindSubmatch(debug.Stack()); m != nil {
+						where = string(m[1])
+					}
+					t.Emit(tr.Ev{"e": "Panic", "p": name, "msg": fmt.Sprint(x), "where": where})
+				}
+			}()
 			buf := r.sl.MakeBuf()
 			var it *skiplist.Iterator
 			defer func() {
